@@ -1,3 +1,4 @@
+import os
 """Discharging obligations with z3: increment matching for count equalities, cut unification and
 tolerance-aware comparison of float tails, model extraction for replay."""
 import re
@@ -125,6 +126,8 @@ class Discharger(object):
         t = time.time()
         r = s.check()
         dt = time.time() - t
+        if os.environ.get('DBG') and dt > 2:
+            import traceback; traceback.print_stack(limit=6)
         self.stats['queries'] += 1
         self.stats['solver_s'] += dt
         if r == z3.unknown:
@@ -157,6 +160,7 @@ class Discharger(object):
                 stack.extend(x.children())
         r = frozenset(out)
         self.varsets[k] = r
+        pin(t)
         return r
 
     def maxvar(self, vs):
@@ -196,6 +200,7 @@ class Discharger(object):
                 res = s.check()
             self.stats['solver_s'] += time.time() - t
             r = (res == z3.unsat)
+            pin(g1, g2, *pc)
             if used_pc and r:
                 self.equiv_cache[key + (tuple(t.get_id() for t in pc),)] = r    # proven only under this path condition
             else:
@@ -267,6 +272,7 @@ class Discharger(object):
     def merge_cuts(self, pc, x, y):
         """x == y was proven under pc: valid for this and every obligation whose path condition extends pc"""
         self.cut_merges.append((tuple(t.get_id() for t in pc), x, y))
+        pin(*pc)
         self.cut_uf[self.find(x)] = self.find(y)
 
     def begin_obligation(self, pc):
@@ -303,6 +309,7 @@ class Discharger(object):
             else:
                 stack.extend(x.children())
         self.cuts_memo[k0] = out
+        pin(t)
         return out
 
     def unify_cuts(self, pc, ta, tb):
@@ -496,11 +503,13 @@ class Discharger(object):
                 for k, (x, y) in enumerate(zip(aa, ab)):
                     name = x.decl().name()
                     exact_all = True
+                    argtol = ARGTOL
                     mirrored = False
                     for i in range(x.num_args()):
                         if x.arg(i).eq(y.arg(i)):
                             continue
-                        want = Fraction(0) if ((name, i) in EXACT_ARGS or name not in LIPS) else ARGTOL
+                        want = Fraction(0) if ((name, i) in EXACT_ARGS or name not in LIPS or tol == 0) else min(ARGTOL, Fraction(tol) / (2 * LIPS[name]))
+                        argtol = want if want != 0 else argtol
                         v, m = self.close_terms(pc, x.arg(i), y.arg(i), want, depth + 1)
                         if v != 'unsat' and name in ('erfc', 'erf'):
                             # erfc(-v) = 2 - erfc(v), erf(-v) = -erf(v)
@@ -520,14 +529,14 @@ class Discharger(object):
                             subs_a.append((x, ux))
                         else:
                             dlt = z3.Real('ufd!%d!%d' % (depth, k))
-                            lim = realq(LIPS[name] * ARGTOL)
+                            lim = realq(LIPS[name] * argtol)
                             extra += [dlt <= lim, dlt >= -lim]
                             subs_a.append((x, ux + dlt))
                     elif exact_all:
                         subs_a.append((x, u))
                     else:
                         dlt = z3.Real('ufd!%d!%d' % (depth, k))
-                        lim = realq(LIPS[name] * ARGTOL)
+                        lim = realq(LIPS[name] * argtol)
                         extra += [dlt <= lim, dlt >= -lim]
                         subs_a.append((x, u + dlt))
                 ta2 = z3.substitute(ta, *subs_a) if subs_a else ta
@@ -559,8 +568,12 @@ class Discharger(object):
             neq = [z3.Or(ta2 - tb2 > tq, tb2 - ta2 > tq)]
         base = side + extra + self.cut_ranges(ta2) + self.cut_ranges(tb2) + list(self.ex.fc.real_assumes)
         base += [d != 0 for d in self.ex.fdivs]
+        if self.split_cuts(ta2, tb2, base, neq, limit=128):
+            return 'unsat', None
         res, m = self.check(base + neq, want_model=True)
         if res == z3.unsat:
+            return 'unsat', None
+        if self.split_cuts(ta2, tb2, base, neq):
             return 'unsat', None
         # second attempt with the path condition and the bit-level meaning of the cuts
         res2, m2 = self.check(list(pc) + base + self.cut_links(ta2) + self.cut_links(tb2) + neq, want_model=True)
@@ -583,6 +596,42 @@ class Discharger(object):
             return 'sat', m2
         return ('sat-abstract' if res == z3.sat else 'unknown'), m
 
+    def split_cuts(self, ta, tb, base, neq, limit=512):
+        """case split of one tolerance query over the INTEGER values of its cut variables (counts with small ranges): each case
+        is linear/constant after substitution. True iff every case is unsat (sound: cuts of linear forms are integer-valued and
+        the cases cover their whole range)."""
+        cv = self.ex.fc.cutvars
+        cs = []
+        tot = 1
+        if os.environ.get('DBG'):
+            print('split_cuts', limit, self.cuts_in(ta), self.cuts_in(tb), list(cv.keys())[:5], str(ta)[:300])
+        for c in sorted(set(self.cuts_in(ta)) | set(self.cuts_in(tb))):
+            rv, iv = cv[c]
+            r = iv.range(True) if isinstance(iv, GSum) else None
+            if os.environ.get('DBG'): print('split', rv, type(iv), r)
+            if r is None:
+                return False
+            tot *= (r[1] - r[0] + 1)
+            if tot > limit:
+                return False
+            cs.append((rv, r))
+        if not cs:
+            return False
+        import itertools
+        t0 = time.time()
+        for vals in itertools.product(*[range(r[0], r[1] + 1) for _, r in cs]):
+            sub = [(rv, z3.RealVal(v)) for (rv, _), v in zip(cs, vals)]
+            q = [z3.simplify(z3.substitute(x, *sub)) for x in base + neq if isinstance(x, z3.ExprRef)]
+            if any(z3.is_false(x) for x in q):
+                continue
+            r_, _m = self.check(q, timeout=3000)
+            if r_ != z3.unsat:
+                return False
+            if time.time() - t0 > 60:
+                return False
+        self.stats['cut_splits'] = self.stats.get('cut_splits', 0) + 1
+        return True
+
     def close(self, obl):
         a, b, tol = obl.extra
         fc = self.ex.fc
@@ -594,6 +643,18 @@ class Discharger(object):
         ta, tb = to_real(fc, a), to_real(fc, b)
         pc = obl.pc
         self.witness = None
+        # cheap structural mismatch first: the same library function applied to different constant shape arguments
+        # (e.g. igamc with another number of degrees of freedom) is a definite difference, whatever the counts are
+        xa, xb = self.uf_apps(ta), self.uf_apps(tb)
+        if len(xa) == len(xb) == 1 and xa[0].decl().name() == xb[0].decl().name():
+            nm = xa[0].decl().name()
+            for i in range(xa[0].num_args()):
+                if (nm, i) in EXACT_ARGS:
+                    p_, q_ = z3.simplify(xa[0].arg(i)), z3.simplify(xb[0].arg(i))
+                    if z3.is_rational_value(p_) and z3.is_rational_value(q_) and p_.as_fraction() != q_.as_fraction():
+                        r0, m0 = self.check(list(pc), want_model=True)
+                        if r0 == z3.sat:
+                            return 'sat', m0
         self.unify_cuts(pc, ta, tb)
         ta, tb = self.subst_cuts(ta), self.subst_cuts(tb)
         v, m = self.close_terms(pc, ta, tb, Fraction(tol))
